@@ -150,7 +150,13 @@ pub fn add_plan(rng: &mut Rng, profile: &str, tree: &Tree, inv: &mut Inv, oracle
                 Rule::new("read", &p, format!("+{}", k), "EIO")
             }),
             HardKind::OpenW => pick_position(rng, &targets).filter(|(p, _)| !listed_twice(p)).map(|(p, _)| {
-                Rule::new("openw", &p, 1, *rng.pick(&["EACCES", "EROFS", "ENOSPC", "EDQUOT", "EPERM", "ETXTBSY"]))
+                if rng.chance(0.15) {
+                    // never fires on an implementation that writes in place; one that renames a
+                    // temporary file over the target meets its write failure here
+                    Rule::new("rename", &p, 1, *rng.pick(&["EACCES", "EXDEV", "ENOSPC", "EPERM", "EBUSY"]))
+                } else {
+                    Rule::new("openw", &p, 1, *rng.pick(&["EACCES", "EROFS", "ENOSPC", "EDQUOT", "EPERM", "ETXTBSY"]))
+                }
             }),
             HardKind::WriteMid => pick_position(rng, &targets).filter(|(p, _)| !listed_twice(p)).map(|(p, len)| {
                 let k = match rng.below(4) {
